@@ -311,7 +311,7 @@ func (f *frame) applyContract(callee *ssa.Function, con *Contract, args []Val, s
 		}
 	}
 	mkEnv := func(cur *State) *SpecEnv {
-		env := &SpecEnv{G: g, Pkg: callee.Pkg.Pkg, Vars: map[string]SV{}, Cur: cur, Old: pre, Next0: pre.next}
+		env := &SpecEnv{G: g, Pkg: callee.Pkg.Pkg, Vars: map[string]SV{}, Cur: cur, Old: pre, Next0: pre.next, FnScope: fnScope(callee)}
 		for i, p := range callee.Params {
 			env.Vars[p.Name()] = SV{Term: args[i].T, Typ: p.Type()}
 		}
@@ -328,7 +328,7 @@ func (f *frame) applyContract(callee *ssa.Function, con *Contract, args []Val, s
 	if callee == c.top {
 		if con.Decreases != nil {
 			mCall := env.Eval(con.Decreases.Expr).Term
-			e0 := &SpecEnv{G: g, Pkg: callee.Pkg.Pkg, Vars: map[string]SV{}, Cur: c.entry, Old: c.entry, Next0: c.entry.next}
+			e0 := &SpecEnv{G: g, Pkg: callee.Pkg.Pkg, Vars: map[string]SV{}, Cur: c.entry, Old: c.entry, Next0: c.entry.next, FnScope: fnScope(callee)}
 			for i, p := range callee.Params {
 				e0.Vars[p.Name()] = SV{Term: c.topArgs[i].T, Typ: p.Type()}
 			}
@@ -490,7 +490,7 @@ func (f *frame) builtin(bi *ssa.Builtin, cm *ssa.CallCommon, pos token.Pos, st *
 }
 
 // moveDef builds the quantified definition of heap h2 from h1 for an append/copy.
-func (f *frame) appendHeaps(st *State, et types.Type, s, t string, inplace string, newArr string) {
+func (f *frame) appendHeaps(st *State, et types.Type, s, t string, inplace string, newArr string, res string) {
 	c := f.c
 	n := fmt.Sprintf("(slen %s)", t)
 	for _, h := range c.g.elemHeaps(et) {
@@ -515,6 +515,15 @@ func (f *frame) appendHeaps(st *State, et types.Type, s, t string, inplace strin
 		}
 		fresh := fmt.Sprintf("(ite (and ((_ is elem) r) (= (earr r) %s) (<= 0 (eidx r)) (< (eidx r) (slen %s))) %s (ite (and ((_ is elem) r) (= (earr r) %s) (<= (slen %s) (eidx r)) (< (eidx r) (+ (slen %s) %s))) %s %s))", newArr, s, srcS, newArr, s, s, n, srcT2, rest)
 		c.assume(st, fmt.Sprintf("(forall ((r Ref)) (! (= (select %s r) (ite %s %s %s)) :pattern ((select %s r))))", nh, inplace, inpl, fresh, nh))
+		// derived lemma (a consequence of the definition above in both branches, stated so that E-matching finds it
+		// from a read of the RESULT slice): the first len(s) elements of the result are the elements of s.
+		// Only for slices of single-cell elements (pointers, interfaces, scalars): a slice of structs has one heap per
+		// leaf field; for those the in-place reference identity stated by doAppend is enough.
+		if res != "" && !isStruct(et) {
+			c.assume(st, fmt.Sprintf("(forall ((i Int)) (! (=> (and (<= 0 i) (< i (slen %s))) (= (select %s (selem %s i)) (select %s (selem %s i)))) :pattern ((selem %s i))))", s, nh, res, cur, s, res))
+			// ... and the first appended element (ground instance: puts the term result[len(s)] into the E-graph)
+			c.assume(st, fmt.Sprintf("(=> (< 0 %s) (= (select %s (selem %s (slen %s))) (select %s (selem %s 0))))", n, nh, res, s, cur, t))
+		}
 		st.heaps[h] = nh
 	}
 }
@@ -546,7 +555,11 @@ func (f *frame) doAppend(cm *ssa.CallCommon, pos token.Pos, st *State, name stri
 	for _, h := range c.g.elemHeaps(et) {
 		before[h] = st.Heap(h)
 	}
-	f.appendHeaps(st, et, s.T, t.T, inplace, id)
+	facts := ""
+	if f.c.contract != nil && f.c.contract.AppendFacts {
+		facts = res // `//@ appendfacts`: additional prefix/first-element facts stated inside appendHeaps
+	}
+	f.appendHeaps(st, et, s.T, t.T, inplace, id, facts)
 	// Consequences of the destination-indexed definition above, stated source-indexed so that E-matching has the terms
 	// (an invariant over the elements of the operand, or an existential over positions of the result, otherwise finds no
 	// instance): element i of the operand is element i of the result, and the first appended element is at index len(s).
